@@ -430,6 +430,7 @@ fn socket_scenario(ty: Ty, stage: u8, spec: String, eof_after: bool) -> Verdict 
         yields: false,
         select: true,
         policy: 0,
+        coop: false,
     });
     let input = expand(&spec);
     let victim = e3::raw_conn("victim");
